@@ -27,7 +27,12 @@ func main() {
 	repo := flag.String("repo", "/repo", "nfpm tree")
 	replay := flag.String("replay", "", "replay file to re-run")
 	flag.Parse()
-	deprecation.Noticer = io.Discard
+	// the notices nfpm prints about deprecated settings would drown the run; the race-detector workload keeps nfpm's own
+	// notice writer (it is process-wide state every deb and ipk packaging may write through)
+	props.DefaultNoticer = deprecation.Noticer
+	if *prop != "C12child" {
+		deprecation.Noticer = io.Discard
+	}
 	fn, ok := props.Registry[*prop]
 	if !ok {
 		fmt.Fprintf(os.Stderr, "unknown property %q (have %s)\n", *prop, strings.Join(props.Names(), " "))
